@@ -1,4 +1,8 @@
 import BufProofs.Props.C16
+import BufProofs.Props.C16Migrate
+import BufProofs.Props.C16MigrateTables
+import BufProofs.Props.C16MigrateWitness
+import BufProofs.Props.C16MigrateWitnessIo
 #print axioms BufProofs.C16.check_roundtrip
 #print axioms BufProofs.C16.yaml_roundtrip
 #print axioms BufProofs.C16.write_idempotent
@@ -36,3 +40,15 @@ import BufProofs.Props.C16
 #print axioms BufProofs.C16.includes_dropped_counterexample
 #print axioms BufProofs.C16.disabled_dropped_counterexample
 #print axioms BufProofs.C16.disabled_dropped_v1_counterexample
+#print axioms BufProofs.C16.migrate_preserves_selected_rules
+#print axioms BufProofs.C16.migrate_preserves_selected_rules_exactly
+#print axioms BufProofs.C16.migrate_preserves_ignore_only
+#print axioms BufProofs.C16.migrate_ignore_only_order_independent
+#print axioms BufProofs.C16.migrate_variant_as_coded
+#print axioms BufProofs.C16.migrate_fixed_preserves_selected_rules
+#print axioms BufProofs.C16.rules_without_v2_counterpart
+#print axioms BufProofs.C16.unfaithful_keys_are_drifting_categories
+#print axioms BufProofs.C16.tables_ids_unique
+#print axioms BufProofs.C16.migrate_except_category_counterexample
+#print axioms BufProofs.C16.migrate_ignore_only_category_counterexample
+#print axioms BufProofs.C16.migrate_ignore_only_collision_counterexample
